@@ -73,7 +73,7 @@ def r_own_field(ctx, prog, codecs, helpers=True):
     R = 'R-OWN-FIELD'
     ctx.rule(R, 'owned is a subset of released: every member of a control block / matrix object that anywhere receives a library '
              'allocation is passed to a deallocator by the object\'s destructor whenever it is non-NULL (matrix members: their '
-             'destructor and, for sparse matrices, of_free of the struct as well)', floor=3)
+             'destructor and, for sparse matrices, of_free of the struct as well)', floor=1)
     alloc = allocator_set(prog)
     for fam in FAMILIES:
         if fam['codec'] is not None and fam['codec'] not in codecs:
@@ -167,7 +167,7 @@ def r_own_elem(ctx, prog, codecs):
     R = 'R-OWN-ELEM'
     ctx.rule(R, 'tables whose elements receive library allocations are swept by the destructor over exactly the owned index range '
              '(repair slots k..n-1 of the symbol table, all n-k constant terms); source slots and RS decoded symbols, which the API '
-             'hands to the application, are not freed', floor=2)
+             'hands to the application, are not freed', floor=1)
     for fam in FAMILIES:
         if fam['codec'] not in codecs or fam['codec'] is None:
             continue
@@ -457,7 +457,7 @@ def _in_scope(prog, f, scope):
 def r_own_local(ctx, prog, scope_units=None):
     R = 'R-OWN-LOCAL'
     ctx.rule(R, 'every local allocation is, on every path to a non-error return, freed, stored into an object that outlives the call, '
-             'returned, or handed to a callee that frees/keeps it', floor=20)
+             'returned, or handed to a callee that frees/keeps it', floor=1)
     n = 0
     for f in prog.all_functions:
         if not _in_scope(prog, f, scope_units):
@@ -780,7 +780,7 @@ def r_dangling(ctx, prog, scope_units=None):
     a non-error status: otherwise the object keeps a dangling pointer that the destructor (or the next user) frees/uses again."""
     R = 'R-DANGLING'
     ctx.rule(R, 'a member or table element whose buffer is freed outside the destructor is reassigned (NULL or a new buffer) on every '
-             'path to a non-error return', floor=5)
+             'path to a non-error return', floor=1)
     n = 0
     for f in prog.all_functions:
         if not _in_scope(prog, f, scope_units):
